@@ -171,6 +171,34 @@ func c10RelLen(streamView, connView int64, streamOpen bool, rel int64) int64 {
 	return w + rel
 }
 
+// c10Frame resolves a DATA event into (payload length, flow-controlled frame
+// length, padding length or -1 for an unpadded frame, END_STREAM) given the
+// windows the sender sees.
+//
+//	D(s,len,pad,end)   fixed payload; pad > 0 adds a pad-length byte and pad bytes
+//	DR(s,rel,end)      unpadded, frame length = w+rel (w = min of both windows)
+//	DRP(s,rel,ovh,end) PADDED, frame length = w+rel of which ovh (1..256) bytes
+//	                   are the pad-length byte and ovh-1 padding bytes; the
+//	                   payload is the remaining w+rel-ovh bytes
+//
+// RFC 9113 §6.9.1: the whole frame payload, padding included, is
+// flow-controlled.
+func c10Frame(ev c08srvEv, streamView, connView int64) (ln, fl, pad int64, end bool) {
+	switch ev.K {
+	case "DR":
+		fl = c10RelLen(streamView, connView, true, ev.arg(1))
+		return fl, fl, -1, ev.arg(2) != 0
+	case "DRP":
+		fl = c10RelLen(streamView, connView, true, ev.arg(1))
+		return fl - ev.arg(2), fl, ev.arg(2) - 1, ev.arg(3) != 0
+	}
+	ln, pad = ev.arg(1), ev.arg(2)
+	if pad <= 0 {
+		pad = -1
+	}
+	return ln, c10FlowLen(ln, ev.arg(2)), pad, ev.arg(3) != 0
+}
+
 func (m *c10Model) enabled(ev c08srvEv, enforce bool) bool {
 	if m.terminal {
 		return false
@@ -200,6 +228,13 @@ func (m *c10Model) enabled(ev c08srvEv, enforce bool) bool {
 		}
 		n := c10RelLen(s.view, m.connView, true, ev.arg(1))
 		return n >= 0 && n <= 1<<20
+	case "DRP":
+		s := idx()
+		if !s.opened || !s.cliOpen || ev.arg(2) < 1 || ev.arg(2) > 256 {
+			return false
+		}
+		ln, fl, _, _ := c10Frame(ev, s.view, m.connView)
+		return ln >= 0 && fl <= 1<<20
 	case "R", "C", "DONE", "P":
 		s := idx()
 		if s.handler != 1 {
@@ -233,17 +268,9 @@ func (m *c10Model) apply(ev c08srvEv) {
 			s.table, s.handler = true, 1
 		}
 		m.s[i] = s
-	case "D", "DR":
+	case "D", "DR", "DRP":
 		s := idx()
-		ln, pad, end := ev.arg(1), ev.arg(2), ev.arg(3) != 0
-		if ev.K == "DR" {
-			ln, pad, end = c10RelLen(s.view, m.connView, s.cliOpen, ev.arg(1)), 0, ev.arg(2) != 0
-			if ln > s.view || ln > m.connView {
-				m.terminal = true // out-of-window frame ends a case
-				return
-			}
-		}
-		fl := c10FlowLen(ln, pad)
+		ln, fl, _, end := c10Frame(ev, s.view, m.connView)
 		if fl > m.connView || (s.cliOpen && fl > s.view) {
 			m.terminal = true // out-of-window frame ends a case
 			return
@@ -580,24 +607,18 @@ func c10srvRunCase(w *vx.W, t testing.TB, cs c08srvCase, mode c10sMode) (res c10
 			if ns.ignored {
 				kind = "H-after-goaway"
 			}
-		case "D", "DR":
+		case "D", "DR", "DRP":
 			if s == nil || s.endIgnored {
 				applied = false
 				break
 			}
-			ln, pad, end := ev.arg(1), ev.arg(2), ev.arg(3) != 0
-			if ev.K == "DR" {
-				if !s.clientOpen() {
-					applied = false
-					break
-				}
-				ln, pad, end = c10RelLen(s.view, mon.connView, true, ev.arg(1)), 0, ev.arg(2) != 0
-				if ln < 0 || ln > 1<<20 {
+			ln, fl, pad, end := c10Frame(ev, s.view, mon.connView)
+			if ev.K != "D" {
+				if !s.clientOpen() || ln < 0 || fl > 1<<20 || pad > 255 {
 					applied = false
 					break
 				}
 			}
-			fl := c10FlowLen(ln, pad)
 			inWin := fl <= mon.connView && (!s.clientOpen() || fl <= s.view)
 			if !inWin && !mode.enforce {
 				applied = false
@@ -620,12 +641,16 @@ func c10srvRunCase(w *vx.W, t testing.TB, cs c08srvCase, mode c10sMode) (res c10
 				kind = "D-after-body-close"
 			case s.cl >= 0 && int64(s.sent)+ln > s.cl:
 				kind = "D-past-content-length"
-			case pad > 0:
+			case pad >= 0:
 				kind = "D-padded"
 			}
 			res.refundPaths[kind] = true
 			data := c08srvPattern(s.sent, int(ln))
 			if !inWin {
+				if pad >= 0 && ln <= mon.connView && (!s.clientOpen() || ln <= s.view) {
+					// the payload alone would fit: only counting the padding puts the frame outside
+					res.refundPaths["D-beyond-window-by-padding-only"] = true
+				}
 				res.excessSent = true
 				s.excess = true
 				if fl > mon.connView {
@@ -655,7 +680,8 @@ func c10srvRunCase(w *vx.W, t testing.TB, cs c08srvCase, mode c10sMode) (res c10
 			}
 			res.dataSent++
 			var werr error
-			if pad > 0 {
+			if pad >= 0 {
+				// a non-nil empty padding still sets PADDED (pad-length byte 0)
 				werr = env.st.fr.WriteDataPadded(id, end, data, make([]byte, pad))
 			} else {
 				werr = env.st.fr.WriteData(id, end, data)
